@@ -1,4 +1,5 @@
 import Proofs.Lemmas.BeaconBlock
+import Proofs.Lemmas.BeaconBlockM
 /-!
 # C03 — every block or operation the spec rejects is rejected, without panicking
 
@@ -155,5 +156,55 @@ theorem M_sound_partial :
     rw [zigzagIn_eq_filter vs target h1 h2 h3] at hr
     cases hr
     simpa [List.mem_filter] using hx
+
+/-! ## Round 2: soundness of whole operations (from the refinements `M = S` of `Proofs/Properties/C01.lean`)
+
+If `M` (the code-shaped model, = the Go code per line of modes `c01`/`c03`) accepts an operation then `S` accepts it,
+with the same post-state; and `M` never answers `panic` where `S` has an answer. -/
+
+/-- generic: an equation `M = toRes S` turns an acceptance by `M` into the same acceptance by `S` -/
+theorem sound_of_refines {α} (m : Res α) (sp : SM α) (h : m = toRes sp) (a : α) (hm : m = .ok a) : sp = .ok a := by
+  rw [h] at hm
+  cases sp with
+  | ok b => simp [toRes] at hm; rw [hm]
+  | error e => simp [toRes] at hm
+
+/-- `header_sound`: what `ProcessHeader` accepts `process_block_header` accepts (slot, parent root, proposer, slashed) -/
+theorem header_sound (cfg : Config) (s s' : State) (block : SignedBlock) (p : Nat)
+    (hp : Block.get_beacon_proposer_index cfg s = .ok p) (h : BlockM.processHeader s block p = .ok s') :
+    Block.process_block_header cfg s block = .ok s' :=
+  sound_of_refines _ _ (Zrnt.Proofs.BlockM.header_eq cfg s block p hp) s' h
+
+/-- `exit_age_sound`: an exit accepted by `ProcessVoluntaryExit` is active, not exiting, due and old enough -/
+theorem exit_age_sound (cfg : Config) (ctx : BlockM.Ctx) (s s' : State) (exit : SignedVoluntaryExit)
+    (hact : ctx.activeCount = (s.validators.filter (is_active_validator · (s.slot / cfg.SLOTS_PER_EPOCH))).length)
+    (hq : cfg.CHURN_LIMIT_QUOTIENT ≠ 0) (hreg : Zrnt.Proofs.BlockM.RegU64 s.validators) (hsmall : Zrnt.Proofs.BlockM.ExitSmall cfg s)
+    (hshard : s.slot / cfg.SLOTS_PER_EPOCH + cfg.SHARD_COMMITTEE_PERIOD < 2 ^ 64)
+    (h : BlockM.processVoluntaryExit cfg ctx s exit = .ok s') :
+    Block.process_voluntary_exit cfg s exit = .ok s' :=
+  sound_of_refines _ _ (Zrnt.Proofs.BlockM.exit_eq cfg ctx s exit hact hq hreg hsmall hshard) s' h
+
+/-- `deposit_count_and_branch_sound` (branch part): a deposit `ProcessDeposit` accepts has a valid Merkle branch -/
+theorem deposit_branch_sound (cfg : Config) (ctx : BlockM.Ctx) (s s' : State) (ctx' : BlockM.Ctx) (dep : Deposit)
+    (hpk : Zrnt.Proofs.BlockM.PubkeyOK s ctx) (hproof : dep.proof.length = Block.DEPOSIT_CONTRACT_TREE_DEPTH + 1)
+    (hebi : cfg.EFFECTIVE_BALANCE_INCREMENT ≠ 0) (hidx : s.eth1_deposit_index + 1 < 2 ^ 64)
+    (hbal : ∀ b ∈ s.balances, b + dep.data.amount < 2 ^ 64)
+    (h : BlockM.processDeposit cfg ctx s dep = .ok (ctx', s')) :
+    Block.process_deposit cfg s dep = .ok s' := by
+  apply sound_of_refines _ _ (Zrnt.Proofs.BlockM.deposit_eq cfg ctx s dep hpk hproof hebi hidx hbal) s'
+  rw [h]; rfl
+
+/-- `payload_sound`: parent hash, prev_randao, timestamp, blob commitment limit, engine verdict -/
+theorem payload_sound (cfg : Config) (s s' : State) (block : SignedBlock) (payload : ExecutionPayload)
+    (hf : s.fork ≥ .bellatrix) (hx : payload.fields.extra_data.size ≤ cfg.MAX_EXTRA_DATA_BYTES)
+    (hlen : s.randao_mixes.length = cfg.EPOCHS_PER_HISTORICAL_VECTOR) (hpos : 0 < cfg.EPOCHS_PER_HISTORICAL_VECTOR)
+    (hsps : 0 < cfg.SECONDS_PER_SLOT) (hg : s.genesis_time < 2 ^ 64)
+    (h : BlockM.processExecutionPayload cfg s block payload = .ok s') :
+    Block.process_execution_payload cfg s block payload = .ok s' :=
+  sound_of_refines _ _ (Zrnt.Proofs.BlockM.payload_eq cfg s block payload hf hx hlen hpos hsps hg) s' h
+
+/-- no panic where the refinement holds: `toRes` never yields `panic` -/
+theorem no_panic_of_refines {α} (m : Res α) (sp : SM α) (h : m = toRes sp) : m ≠ .panic ∧ m ≠ .outOfFuel := by
+  rw [h]; cases sp <;> simp [toRes]
 
 end Zrnt.Proofs.C03
